@@ -1126,3 +1126,81 @@ func TestConcurrentClients(t *testing.T) {
 		})
 	})
 }
+
+// yieldingAlg is a signing party that takes its time (an HSM, a remote signer):
+// the publisher task is parked before the message is actually signed.
+type yieldingAlg struct {
+	inner interface {
+		Sign([]byte) ([]byte, error)
+	}
+	yield func()
+}
+
+func (a yieldingAlg) Sign(m []byte) ([]byte, error) {
+	a.yield()
+	return a.inner.Sign(m)
+}
+
+// TestConcurrentPublishers: two or three publisher tasks sign and write their
+// own exchanges under the cooperative scheduler; a task is parked inside its
+// (slow) signing algorithm and at every Write of its destination. Every
+// exchange must afterwards read back as the model and verify.
+func TestConcurrentPublishers(t *testing.T) {
+	rapid.Check(t, func(t *rapid.T) {
+		core.Run(t, "sxg/concurrent-publishers", func(c *core.Ctx) {
+			n := c.Int("npublishers", 2, 3)
+			ls := make([]*gen.LSXG, n)
+			files := make([][]byte, n)
+			errs := make([]error, n)
+			var tasks []func(yield func())
+			for i := 0; i < n; i++ {
+				i := i
+				l := gen.DrawSXG(c, fmt.Sprintf("sxg%d", i), i+1)
+				ls[i] = l
+				w := c.NewWriter(fmt.Sprintf("disk%d", i), core.WriterPlan{FailAt: -1})
+				tasks = append(tasks, func(yield func()) {
+					core.Unwrap(w).OnCall = yield
+					sg := l.Signer()
+					sg.Algorithm = yieldingAlg{inner: sg.Algorithm, yield: yield}
+					l.SignerObj = sg
+					e, err := l.Sign()
+					if err != nil {
+						errs[i] = err
+						return
+					}
+					errs[i] = e.Write(w)
+					files[i] = core.Unwrap(w).Accepted
+				})
+			}
+			sched, panics := c.RunTasks("sched", tasks)
+			c.Event("schedule %s", sched)
+			net := newCertNet(c)
+			for i, l := range ls {
+				if panics[i] != nil {
+					if c.Oracle("C02", "C10") {
+						c.Violation("panic", "publisher(concurrent)", "publisher task %d panicked under schedule %s: %v", i, sched, panics[i])
+					}
+					continue
+				}
+				if !c.Oracle("C02") {
+					continue
+				}
+				if errs[i] != nil {
+					c.Violation("sign-error", "publisher", "publisher %d failed under schedule %s: %v", i, sched, errs[i])
+				}
+				rd, rerr := signedexchange.ReadExchange(bytes.NewReader(files[i]))
+				if rerr != nil {
+					c.Violation("read-error", "ReadExchange", "publisher %d's file rejected (schedule %s): %v", i, sched, rerr)
+				}
+				checkReadBack(c, rd, l, "ReadExchange/concurrent-publishers")
+				tm := time.Unix(l.Date+c.I64("t", 0, l.Expires-l.Date), 0)
+				v := verify(c, rd, tm, net)
+				if v.pi != nil || !v.ok || !bytes.Equal(v.payload, l.Payload) {
+					c.Violation("verify-failed", "Exchange.Verify", "publisher %d of %d: the exchange signed under schedule %s does not verify inside its window", i, n, sched)
+				}
+			}
+			c.Outcome("nt:done")
+			c.Sig("%s", sched)
+		})
+	})
+}
